@@ -1048,6 +1048,23 @@ def m_len(ex, st, call, args):
     return _ret(st, ("len", v))
 
 
+def m_vec_new(ex, st, call, args):
+    if not ex.concrete_iters:
+        return NotImplemented
+    return _ret(st, ("call", "vec!", (("array", ()),)))
+
+
+def m_vec_push(ex, st, call, args):
+    """push on a vector with a concrete number of elements (only in concrete-iterator mode)"""
+    if not ex.concrete_iters or args[0][0] != "ref":
+        return NotImplemented
+    xs = _concrete_items(ex, st, args[0])
+    if xs is None:
+        return NotImplemented
+    ex.store(st, args[0][1], ("call", "vec!", (("array", tuple(xs) + (ex.canon(st, args[1]),)),)), log=False)
+    return _ret(st, UNIT)
+
+
 def m_is_empty(ex, st, call, args):
     xs = _concrete_items(ex, st, args[0])
     if xs is None:
@@ -1061,6 +1078,21 @@ def m_get_unchecked(ex, st, call, args):
     if xs is None or i[0] != "const" or not isinstance(i[1], int) or not (0 <= i[1] < len(xs)):
         return NotImplemented
     return _ret(st, ("&", xs[i[1]]))
+
+
+def m_split(which):
+    def f(ex, st, call, args):
+        xs = _concrete_items(ex, st, args[0])
+        if xs is None:
+            return NotImplemented
+        if not xs:
+            return _ret(st, ("adt", "core::option::Option", "None", ()))
+        if which == "last":
+            pair = ("tuple", (("&", xs[-1]), ("&", ("array", tuple(xs[:-1])))))
+        else:
+            pair = ("tuple", (("&", xs[0]), ("&", ("array", tuple(xs[1:])))))
+        return _ret(st, ("adt", "core::option::Option", "Some", (pair,)))
+    return f
 
 
 def m_first_last(which):
@@ -1097,6 +1129,10 @@ def m_iter_pure(ex, st, call, args):
     for i, a in enumerate(args):
         if i == 0 and a[0] in ("ref", "&"):
             a = ex.deref_val(st, a)
+        if i > 0 and ex.concrete_iters and a[0] == "closure":
+            # keep the closure's captured `&mut` references alive: a concrete iterator may run the closure later, with effects
+            vals.append(a)
+            continue
         vals.append(ex.canon(st, a))
     return _ret(st, ("call", "Iterator::" + call.method, tuple(vals)))
 
@@ -1389,8 +1425,13 @@ DEFAULT_MODELS = {
     "core::ops::deref::DerefMut::deref_mut": m_deref,
     "alloc::vec::Vec::<T, A>::len": m_len,
     "alloc::vec::Vec::<T, A>::is_empty": m_is_empty,
+    "alloc::vec::Vec::<T>::new": m_vec_new,
+    "alloc::vec::Vec::<T>::with_capacity": m_vec_new,
+    "alloc::vec::Vec::<T, A>::push": m_vec_push,
     "core::slice::<impl [T]>::is_empty": m_is_empty,
     "core::slice::<impl [T]>::get_unchecked": m_get_unchecked,
+    "core::slice::<impl [T]>::split_last": m_split("last"),
+    "core::slice::<impl [T]>::split_first": m_split("first"),
     "core::slice::<impl [T]>::first": m_first_last("first"),
     "core::slice::<impl [T]>::last": m_first_last("last"),
     "core::slice::<impl [T]>::len": m_len,
